@@ -526,6 +526,10 @@ impl Server {
                 None => break,
             };
             
+            // The pop made on behalf of the blocked client is a state change like any other
+            let pop_name = if matches!(waiter.op_type, super::connection::BlockingOp::BRPop) { "RPOP" } else { "LPOP" };
+            self.append_to_aof(wakeup.db, &[RespFrame::from_string(pop_name), RespFrame::from_bytes(wakeup.key.clone())]);
+            
             let response = RespFrame::Array(Some(vec![
                 RespFrame::from_bytes(wakeup.key.clone()),
                 RespFrame::from_bytes(popped_value),
@@ -3244,6 +3248,7 @@ impl Server {
         // Try non-blocking first (fast path)
         for key in &keys {
             if let Some(value) = self.storage.lpop(db_index, key)? {
+                self.append_to_aof(db_index, &[RespFrame::from_string("LPOP"), RespFrame::from_bytes(key.clone())]);
                 return Ok(RespFrame::Array(Some(vec![
                     RespFrame::from_bytes(key.clone()),
                     RespFrame::from_bytes(value),
@@ -3308,6 +3313,7 @@ impl Server {
         // Try non-blocking first (fast path)  
         for key in &keys {
             if let Some(value) = self.storage.rpop(db_index, key)? {
+                self.append_to_aof(db_index, &[RespFrame::from_string("RPOP"), RespFrame::from_bytes(key.clone())]);
                 return Ok(RespFrame::Array(Some(vec![
                     RespFrame::from_bytes(key.clone()),
                     RespFrame::from_bytes(value),
